@@ -24,7 +24,10 @@ def run(tier, seed):
     # falls silent (its certificates are known to the others only from its late proposals); a lagging leader-to-be
     k = 12 if tier == "quick" else 300
     more = [["-heal", "-nobyz", "-suffix", 16, "-only", "late-leader", "-runs", k, "-steps", 200],
-            ["-heal", "-nobyz", "-suffix", 16, "-only", "laggard", "-runs", k, "-steps", 150]]
+            ["-heal", "-nobyz", "-suffix", 16, "-only", "laggard", "-runs", k, "-steps", 150],
+            # clients with a small window of outstanding commands (batch size 2) that fall silent for a few view timers inside the
+            # synchronous suffix and then return: leaders find no batch, wait until their timer fires; progress must resume
+            ["-heal", "-nobyz", "-suffix", 16, "-only", "client-pause", "-runs", k, "-steps", 120]]
     return protolib.run_property(PROP, tier, seed, args, RULE, extra_cov=extra, assumptions=ASSUME, more=more)
 
 
